@@ -411,7 +411,7 @@ func TestC02(t *testing.T) {
 	// simultaneous opens (id allocation of streams)
 	nopens := 8
 	if thorough() {
-		nopens = 30
+		nopens = 20
 	}
 	for rep := 0; rep < nopens; rep++ {
 		epochs, wedged := runC02Opens(t, rep, 64, 20, rep%2 == 1)
@@ -465,7 +465,7 @@ func TestC02(t *testing.T) {
 	nrand := 260
 	maxN := 20
 	if thorough() {
-		nrand = 3000
+		nrand = 2000
 		maxN = 200
 	}
 	for i := 0; i < nrand; i++ {
